@@ -318,6 +318,47 @@ def dirCameraOld {F : Type} (uncastAt : F → α → V3 α → α × α) (margin
 
 end Directional
 
+/-! ## `NewCameraAt` (camera.go) and the whole of `DirectionalCamera` (helpers.go) -/
+
+section DirectionalFull
+variable {α : Type} [Add α] [Sub α] [Mul α] [Div α] [Neg α] [OfNat α 0] [OfNat α 1] [OfNat α 2]
+  [LT α] [DecidableLT α] [LE α] [DecidableLE α]
+
+/-- `Coord3D.ProjectOut`. -/
+def V3.projectOut (sqrt : α → α) (c c1 : V3 α) : V3 α :=
+  let normed := c1.normalize sqrt
+  c.sub (normed.scale (normed.dot c))
+
+/-- `NewCameraAt(source, dest, fov)`; `tiny` is the literal `1e-5`, `pd = 1/tan(fov/2)` (with the
+default substituted for `fov == 0`) is carried instead of `fov`. -/
+def newCameraAt (sqrt : α → α) (tiny pd : α) (source dest : V3 α) : Camera α :=
+  let z := (dest.sub source).normalize sqrt
+  let x0 : V3 α := ⟨z.y, -z.x, 0⟩
+  let x1 := if x0.norm sqrt < tiny then (⟨1, 0, 0⟩ : V3 α).projectOut sqrt z else x0
+  let x := x1.normalize sqrt
+  ⟨source, x, z.cross x, pd⟩
+
+/-- The eight corners in the order of the three nested loops. -/
+def boxCorners (mn mx : V3 α) : List (V3 α) :=
+  [⟨mn.x, mn.y, mn.z⟩, ⟨mn.x, mn.y, mx.z⟩, ⟨mn.x, mx.y, mn.z⟩, ⟨mn.x, mx.y, mx.z⟩,
+   ⟨mx.x, mn.y, mn.z⟩, ⟨mx.x, mn.y, mx.z⟩, ⟨mx.x, mx.y, mn.z⟩, ⟨mx.x, mx.y, mx.z⟩]
+
+/-- `Uncaster(1, 1)` of the candidate camera at distance `d` (what the loop body evaluates). -/
+def candidateUncast (sqrt : α → α) (tiny pd : α) (center direction : V3 α) (d : α) (p : V3 α) : α × α :=
+  (newCameraAt sqrt tiny pd (center.add (direction.scale d)) center).uncaster sqrt 1 1 p
+
+/-- `DirectionalCamera(object, direction, fov)` for an object with bounds `mn, mx`;
+`margin, loF, hiF` are the literals `0.05, 1e-4, 1e4`. -/
+def directionalCamera (sqrt : α → α) (tiny pd margin loF hiF : α) (mn mx direction : V3 α) : Camera α :=
+  let diff := mn.sub mx
+  let baseline := sqrt (diff.x * diff.x + diff.y * diff.y + diff.z * diff.z)
+  let center := (mn.add mx).scale (1 / 2)
+  let dist := dirSearch (fun d => containedBy (candidateUncast sqrt tiny pd center direction d) margin
+    (boxCorners mn mx)) 32 (baseline * loF) (baseline * hiF)
+  newCameraAt sqrt tiny pd (center.add (direction.scale dist)) center
+
+end DirectionalFull
+
 /-! ## Object wrappers (object.go, transform.go) -/
 
 structure Ray (α : Type) where
@@ -361,8 +402,16 @@ def filteredCast (bounds : Ray α → Bool) (o : Cast α) : Cast α :=
 def translatedCast [Sub α] (off : V3 α) (o : Cast α) : Cast α :=
   fun r => o ⟨r.origin.sub off, r.dir⟩
 
-/-- `matrixObject.Cast` (`minv` is the `Inverse` stored by `MatrixMultiply`). -/
-def matrixCast [Add α] [Mul α] [Div α] [OfNat α 1] (sqrt : α → α) (m minv : M3 α) (o : Cast α) : Cast α :=
+/-- `matrixObject.Cast` as repaired by the second-round C20 `fix:` commit (`minv` is the `Inverse`
+stored by `MatrixMultiply`): the normal is mapped with the inverse transpose and normalised. -/
+def matrixCast [Add α] [Mul α] [Div α] [OfNat α 1] (sqrt : α → α) (_m minv : M3 α) (o : Cast α) : Cast α :=
+  fun r =>
+    match o ⟨minv.mulColumn r.origin, minv.mulColumn r.dir⟩ with
+    | none => none
+    | some h => some { h with normal := (minv.transpose.mulColumn h.normal).normalize sqrt }
+
+/-- The code before that repair: the normal was mapped with the matrix itself. -/
+def matrixCastOld [Add α] [Mul α] [Div α] [OfNat α 1] (sqrt : α → α) (m minv : M3 α) (o : Cast α) : Cast α :=
   fun r =>
     match o ⟨minv.mulColumn r.origin, minv.mulColumn r.dir⟩ with
     | none => none
@@ -437,11 +486,45 @@ def directLight (scene : Ray α → Option (Hit α × Mat α σ)) (sqrt : α →
     | some (sc, _) => if sc.scale < 1 then color else lit
     | none => lit) color
 
+/-- A `FocusPoint` together with its entry of `FocusPointProbs`. -/
+structure FocusPt (α σ : Type) where
+  prob : α
+  /-- `SampleFocus(gen, mat, point, normal, dest)`. -/
+  sample : σ → Mat α σ → V3 α → V3 α → V3 α → V3 α × σ
+  /-- `FocusDensity(mat, point, normal, source, dest)`. -/
+  density : Mat α σ → V3 α → V3 α → V3 α → V3 α → α
+
+/-- The selection loop of `sampleNextSource`: `p -= prob; if p < 0 { return focus i }`. -/
+def pickFocus (p : α) : List (FocusPt α σ) → Option (FocusPt α σ)
+  | [] => none
+  | f :: fs => if p - f.prob < 0 then some f else pickFocus (p - f.prob) fs
+
+/-- `RecursiveRayTracer.sampleNextSource`; `uniform` is `gen.Float64()`. -/
+def sampleNextSource (uniform : σ → α × σ) (focus : List (FocusPt α σ)) (m : Mat α σ) (g : σ)
+    (point normal dest : V3 α) : V3 α × σ :=
+  match focus with
+  | [] => m.sample g normal dest
+  | _ :: _ =>
+    let (p, g) := uniform g
+    match pickFocus p focus with
+    | some f => f.sample g m point normal dest
+    | none => m.sample g normal dest
+
+/-- `RecursiveRayTracer.sourceDensity`: the density of the mixture `sampleNextSource` draws from. -/
+def sourceDensity (focus : List (FocusPt α σ)) (m : Mat α σ) (point normal source dest : V3 α) : α :=
+  match focus with
+  | [] => m.density normal source dest
+  | _ :: _ =>
+    let acc := focus.foldl (fun (acc : α × α) f =>
+      (acc.1 + f.prob * f.density m point normal source dest, acc.2 - f.prob)) (0, 1)
+    acc.1 + acc.2 * m.density normal source dest
+
 /-- `RecursiveRayTracer.recurse`.  `fuel = MaxDepth - depth`; `first` is `depth == 0`.
 `scene r` is `obj.Cast(r)` together with the material found there; `abs` is `math.Abs`;
-`eps` is the bounce offset. -/
+`eps` is the bounce offset; `focus` are `FocusPoints`/`FocusPointProbs`, `uniform` is `gen.Float64()`. -/
 def recurse (scene : Ray α → Option (Hit α × Mat α σ)) (sqrt abs : α → α) (cutoff eps : α)
-    (lights : List (PointLight α)) : Nat → Bool → σ → Ray α → V3 α → V3 α × σ
+    (lights : List (PointLight α)) (uniform : σ → α × σ) (focus : List (FocusPt α σ)) :
+    Nat → Bool → σ → Ray α → V3 α → V3 α × σ
   | fuel, first, g, ray, scale =>
     if (scale.x + scale.y + scale.z) / 3 < cutoff then (V3.zero, g)
     else
@@ -455,12 +538,12 @@ def recurse (scene : Ray α → Option (Hit α × Mat α σ)) (sqrt abs : α →
         match fuel with
         | 0 => (color, g)
         | fuel + 1 =>
-          let (src, g) := m.sample g c.normal dest
-          let weight := 1 / m.density c.normal src dest * abs (src.dot c.normal)
+          let (src, g) := sampleNextSource uniform focus m g point c.normal dest
+          let weight := 1 / sourceDensity focus m point c.normal src dest * abs (src.dot c.normal)
           let mask := (m.bsdf c.normal src dest).scale weight
           let dir := src.scale (-1)
           let next : Ray α := ⟨point.add ((dir.normalize sqrt).scale eps), dir⟩
-          let (nc, g) := recurse scene sqrt abs cutoff eps lights fuel false g next (scale.mul mask)
+          let (nc, g) := recurse scene sqrt abs cutoff eps lights uniform focus fuel false g next (scale.mul mask)
           (color.add (nc.mul mask), g)
 
 /-- One pixel of `RayCaster.Render` (`img.Data[idx]` keeps its zero value on a miss). -/
@@ -475,5 +558,300 @@ def rayCasterPixel (scene : Ray α → Option (Hit α × Mat α σ)) (sqrt : α 
       color.add ((l.shade sqrt c.normal (l.origin.sub point)).mul brdf)) (m.ambient.add m.emission)
 
 end Recurse
+
+/-! ## `Image` accessors (image.go) -/
+
+/-- `render3d.Image`: row-major pixel data. -/
+structure Img (C : Type) where
+  data : List C
+  width : Nat
+  height : Nat
+deriving Repr
+
+section Image
+variable {C : Type}
+
+/-- `NewImage` (every pixel the zero colour `z`). -/
+def Img.new (z : C) (w h : Nat) : Img C := ⟨List.replicate (w * h) z, w, h⟩
+
+/-- `Image.At` inside the bounds check (`x < Width`, `y < Height`; otherwise Go panics). -/
+def Img.at (z : C) (i : Img C) (x y : Nat) : C := i.data.getD (x + y * i.width) z
+
+/-- `Image.Set` inside the bounds check. -/
+def Img.set (i : Img C) (x y : Nat) (c : C) : Img C := { i with data := i.data.set (x + y * i.width) c }
+
+/-- `Image.SetAll`. -/
+def Img.setAll (i : Img C) (c : C) : Img C := { i with data := i.data.map fun _ => c }
+
+/-- Go's `copy(dst[start:start+n], src)` for `src.length = n` and `start + n ≤ dst.length`. -/
+def copySlice (dst : List C) (start : Nat) (src : List C) : List C :=
+  dst.take start ++ src ++ dst.drop (start + src.length)
+
+/-- `Image.CopyFrom(i1, x, y)` for `0 ≤ x ≤ Width`, `0 ≤ y ≤ Height`. -/
+def Img.copyFrom (i i1 : Img C) (x y : Nat) : Img C :=
+  let cw := min i1.width (i.width - x)
+  let ch := min i1.height (i.height - y)
+  { i with data := (List.range ch).foldl (fun d row =>
+      copySlice d ((row + y) * i.width + x) ((i1.data.drop (row * i1.width)).take cw)) i.data }
+
+variable {α : Type} [Add α] [Mul α] [Div α] [OfNat α 0] [OfNat α 1]
+
+/-- The `factor × factor` block of source pixels averaged into output pixel `(j, i1)`, in loop order. -/
+def blockPixels (i : Img (V3 α)) (f i1 j : Nat) : List (V3 α) :=
+  (List.range f).flatMap fun k => (List.range f).map fun l =>
+    i.data.getD (i.width * (i1 * f + k) + (j * f + l)) V3.zero
+
+/-- The running `sum` of the two inner loops of `Downsample`. -/
+def blockSum (i : Img (V3 α)) (f i1 j : Nat) : V3 α :=
+  (List.range f).foldl (fun acc k => (List.range f).foldl (fun acc l =>
+    acc.add (i.data.getD (i.width * (i1 * f + k) + (j * f + l)) V3.zero)) acc) V3.zero
+
+/-- `Image.Downsample(factor)` (for `factor` dividing both sides; otherwise Go panics). -/
+def Img.downsample (cast : Nat → α) (i : Img (V3 α)) (f : Nat) : Img (V3 α) :=
+  let w := i.width / f
+  let h := i.height / f
+  ⟨(List.range h).flatMap fun i1 => (List.range w).map fun j =>
+      (blockSum i f i1 j).scale (1 / cast (f * f)), w, h⟩
+
+/-- `Image.Scale`. -/
+def Img.scaleAll (i : Img (V3 α)) (s : α) : Img (V3 α) := { i with data := i.data.map fun c => c.scale s }
+
+end Image
+
+/-! ## Bidirectional path tracer bookkeeping (bidir.go): roulette, path densities, combination -/
+
+/-- `bptPathEnder`. -/
+structure PathEnder (α : Type) where
+  current : α
+  fullMask : V3 α
+  rouletteMask : V3 α
+
+section BPT
+variable {α σ : Type} [Add α] [Sub α] [Mul α] [Div α] [OfNat α 0] [OfNat α 1] [OfNat α 3] [OfNat α 4]
+  [LT α] [DecidableLT α]
+
+def PathEnder.new : PathEnder α := ⟨1, ⟨1, 1, 1⟩, ⟨1, 1, 1⟩⟩
+
+def maxOf (a b : α) : α := if a < b then b else a
+
+/-- `bptPathEnder.End(gen, i, mask)`: `(ended, state', generator')`.  Surviving a roulette with keep
+probability `p` multiplies `currentRoulette` by `1/p`. -/
+def PathEnder.step (minLength : Nat) (cutoff : α) (uniform : σ → α × σ) (pe : PathEnder α) (g : σ)
+    (i : Nat) (mask : V3 α) : Bool × PathEnder α × σ :=
+  let full := pe.fullMask.mul mask
+  let pe := { pe with fullMask := full }
+  let mean := (full.x + full.y + full.z) / 3
+  let r1 : Bool × PathEnder α × σ :=
+    if mean < cutoff then
+      let keep := mean / cutoff
+      let (u, g) := uniform g
+      if keep < u then (true, pe, g) else (false, { pe with current := pe.current * (1 / keep) }, g)
+    else (false, pe, g)
+  if r1.1 then r1
+  else
+    let pe := r1.2.1
+    let g := r1.2.2
+    if minLength ≠ 0 ∧ minLength ≤ i + 1 then
+      let rm := pe.rouletteMask.mul mask
+      let pe := { pe with rouletteMask := rm }
+      let maxVal := maxOf (maxOf rm.x rm.y) rm.z
+      if maxVal < 1 then
+        let pe := { pe with rouletteMask := ⟨1, 1, 1⟩ }
+        let (u, g) := uniform g
+        if maxVal < u then (true, pe, g) else (false, { pe with current := pe.current * (1 / maxVal) }, g)
+      else (false, pe, g)
+    else (false, pe, g)
+
+/-- The fields of `bptPathVertex` the combination stage reads. `mat = none` is a vertex sampled on a light. -/
+structure PVert (α : Type) where
+  point : V3 α
+  normal : V3 α
+  source : V3 α
+  dest : V3 α
+  bsdf : V3 α
+  emission : V3 α
+  mat : Option Nat
+  srcDen : α
+  destDen : α
+  roulette : α
+
+/-- What `EvalMaterial` asks of a material (by id): `SourceDensity`, `DestDensity`, `BSDF` of `(normal, source, dest)`. -/
+structure MatEval (α : Type) where
+  srcDen : Nat → V3 α → V3 α → V3 α → α
+  destDen : Nat → V3 α → V3 α → V3 α → α
+  bsdf : Nat → V3 α → V3 α → V3 α → V3 α
+
+def PVert.sourceDot (abs : α → α) (v : PVert α) : α := abs (v.normal.dot v.source)
+def PVert.destDot (abs : α → α) (v : PVert α) : α := abs (v.normal.dot v.dest)
+
+/-- `bptPathVertex.EvalMaterial`. -/
+def PVert.eval (me : MatEval α) (v : PVert α) : PVert α :=
+  match v.mat with
+  | none =>
+    let d := v.dest.dot v.normal
+    { v with destDen := 4 * (if 0 < d then d else 0) }
+  | some id =>
+    { v with srcDen := me.srcDen id v.normal v.source v.dest,
+             destDen := me.destDen id v.normal v.source v.dest,
+             bsdf := me.bsdf id v.normal v.source v.dest }
+
+/-- `Accumulator` of every vertex (product of the `SourceDensity` of all later vertices) and the
+final `sourceDensityProduct`, computed from the end of the path as the loop does. -/
+def accumulators (path : List (PVert α)) : List α × α :=
+  -- vertex 0 gets no accumulator in Go; it is never read. We give it the final product.
+  match path with
+  | [] => ([], 1)
+  | v0 :: rest =>
+    let r := rest.foldr (fun v (acc : List α × α) => (acc.2 :: acc.1, acc.2 * v.srcDen)) ([], 1)
+    let _ := v0
+    (r.2 :: r.1, r.2)
+
+/-- The loop over `b.Points[2:]` of `Densities`. `i` is the loop index. -/
+def lightStrategies (abs : α → α) (fourPi : α) (pts : List (PVert α)) (acc : List α)
+    (maxDepth maxLightDepth : Nat) : Nat → Nat → α → List α
+  | 0, _, _ => []
+  | fuel + 1, i, lightDensity =>
+    if pts.length ≤ i + 2 then []
+    else if maxLightDepth ≤ i + 1 then []
+    else
+      match pts[i]?, pts[i + 1]?, pts[i + 2]? with
+      | some pi, some pi1, some pi2 =>
+        let ld := lightDensity * pi.destDen
+        let ld := ld * (pi1.sourceDot abs / pi.destDot abs)
+        let diff := pi1.point.sub pi2.point
+        let outArea := fourPi * diff.dot diff
+        let here := if pts.length - (i + 2) ≤ maxDepth
+          then [acc.getD (i + 2) 0 * ld * outArea / pi1.destDot abs] else []
+        here ++ lightStrategies abs fourPi pts acc maxDepth maxLightDepth fuel (i + 1) ld
+      | _, _, _ => []
+
+/-- `bptLightPath.Densities`: the sampling density of the path under every strategy that could have
+produced it, in the order reported. `fourPi` is the constant `4 * math.Pi`. -/
+def densities (abs : α → α) (fourPi : α) (pts : List (PVert α)) (totalLight : α)
+    (maxDepth maxLightDepth : Nat) : List α :=
+  let maxLightDepth := if maxLightDepth = 0 then maxDepth else maxLightDepth
+  let (acc, product) := accumulators pts
+  let first := if pts.length ≤ maxDepth then [product] else []
+  match pts with
+  | p0 :: p1 :: _ =>
+    let lightDensity := (p0.emission.x + p0.emission.y + p0.emission.z) / totalLight
+    let diff := p0.point.sub p1.point
+    let second := if pts.length - 1 ≤ maxDepth
+      then [lightDensity * acc.getD 1 0 * (fourPi * diff.dot diff) / p0.destDot abs] else []
+    first ++ second ++ lightStrategies abs fourPi pts acc maxDepth maxLightDepth pts.length 0 lightDensity
+  | _ => first
+
+/-- `combinePaths(eye[:i], light[:j])` (`j = 0`: the eye path alone), light end first. -/
+def combinePaths (sqrt : α → α) (me : MatEval α) (eye light : List (PVert α)) : List (PVert α) :=
+  match eye.getLast?, light.getLast? with
+  | some e, none => e :: eye.dropLast.reverse
+  | some e, some p =>
+    let dest := (e.point.sub p.point).normalize sqrt
+    let v : PVert α := (⟨p.point, p.normal, p.source, dest, V3.zero, p.emission, p.mat, 0, 0, 0⟩ : PVert α).eval me
+    let v1 : PVert α := (⟨e.point, e.normal, v.dest, e.dest, V3.zero, e.emission, e.mat, 0, 0, 0⟩ : PVert α).eval me
+    light.dropLast ++ [v, v1] ++ eye.dropLast.reverse
+  | none, _ => []
+
+/-- One call of the callback of `allPathCombinations`: the unweighted contribution, the joined path
+and the two points whose mutual visibility has to be checked (`none`: nothing to check). -/
+structure Combo (α : Type) where
+  intensity : V3 α
+  joined : List (PVert α)
+  connect : Option (V3 α × V3 α)
+
+/-- The inner loop over `j` (light sub-paths) for a fixed eye sub-path. -/
+def lightCombos (sqrt abs : α → α) (fourPi : α) (me : MatEval α) (subEye light : List (PVert α))
+    (eyeBSDF : V3 α) (eLast : PVert α) : Nat → Nat → α → V3 α → List (Combo α)
+  | 0, _, _, _ => []
+  | fuel + 1, j, density, lightBSDF =>
+    if light.length < j then []
+    else
+      match light[j - 1]? with
+      | none => []
+      | some lj1 =>
+        let diff := lj1.point.sub eLast.point
+        let outArea := fourPi * diff.dot diff
+        let dl : α × V3 α :=
+          if 1 < j then
+            match light[j - 2]? with
+            | some lj2 =>
+              let d := density * lj2.destDen
+              let d := d * (lj1.sourceDot abs / lj2.destDot abs)
+              let lb := if 2 < j then lightBSDF.mul lj2.bsdf else lightBSDF
+              (d, lb.scale (lj1.sourceDot abs))
+            | none => (density, lightBSDF)
+          else (density, lightBSDF)
+        let density := dl.1
+        let lightBSDF := dl.2
+        let out := combinePaths sqrt me subEye (light.take j)
+        let here : List (Combo α) :=
+          match out[j - 1]?, out[j]? with
+          | some oj1, some oj =>
+            let destDot := oj1.destDot abs
+            let sourceDot := oj.sourceDot abs
+            if 0 < destDot ∧ 0 < sourceDot then
+              let _curDensity := density * outArea / destDot
+              let inten := (eyeBSDF.mul lightBSDF).scale sourceDot
+              let inten := inten.mul oj.bsdf
+              let inten := inten.scale (lj1.roulette * eLast.roulette)
+              let inten := if 1 < j then inten.mul oj1.bsdf else inten
+              [⟨inten, out, some (eLast.point, lj1.point)⟩]
+            else []
+          | _, _ => []
+        here ++ lightCombos sqrt abs fourPi me subEye light eyeBSDF eLast fuel (j + 1) density lightBSDF
+
+/-- `allPathCombinations`: the outer loop over eye sub-paths. -/
+def allCombos [DecidableEq α] (sqrt abs : α → α) (fourPi : α) (me : MatEval α) (eye light : List (PVert α))
+    (totalLight : α) : Nat → Nat → α → V3 α → List (Combo α)
+  | 0, _, _, _ => []
+  | fuel + 1, i, eyeDensity, eyeBSDF =>
+    if eye.length < i then []
+    else
+      match eye[i - 1]?, light.head? with
+      | some ei, some l0 =>
+        let subEye := eye.take i
+        let direct : List (Combo α) :=
+          if ei.emission.x = 0 ∧ ei.emission.y = 0 ∧ ei.emission.z = 0 then []
+          else [⟨(ei.emission.mul eyeBSDF).scale ei.roulette, combinePaths sqrt me subEye [], none⟩]
+        let density := eyeDensity * (l0.emission.x + l0.emission.y + l0.emission.z) / totalLight
+        let conn := lightCombos sqrt abs fourPi me subEye light eyeBSDF ei light.length 1 density l0.emission
+        let eyeDensity := eyeDensity * ei.srcDen
+        let eyeBSDF := (eyeBSDF.mul ei.bsdf).scale (ei.sourceDot abs)
+        direct ++ conn ++ allCombos sqrt abs fourPi me eye light totalLight fuel (i + 1) eyeDensity eyeBSDF
+      | _, _ => []
+
+/-- SPECIFICATION-level weight of the balance heuristic: a contribution with unweighted value
+`intensity` on a path whose strategies have densities `ds` counts `intensity / Σ ds`. -/
+def misColor (intensity : V3 α) (ds : List α) : V3 α :=
+  intensity.scale (1 / ds.foldl (· + ·) 0)
+
+/-- `BidirPathTracer.rayColor` after the two paths have been sampled (`PowerHeuristic = 0`,
+`RouletteDelta = 0`).  `blocked p1 p2` is the visibility test between the connected points
+(`true`: something is in between); `tiny` is the literal `1e-8`. -/
+def rayColorFromPaths [DecidableEq α] (sqrt abs : α → α) (fourPi tiny : α) (me : MatEval α)
+    (eye light : List (PVert α)) (totalLight : α) (maxDepth maxLightDepth : Nat)
+    (blocked : V3 α → V3 α → Bool) : V3 α :=
+  (allCombos sqrt abs fourPi me eye light totalLight eye.length 1 1 ⟨1, 1, 1⟩).foldl (fun total c =>
+    if c.intensity.x + c.intensity.y + c.intensity.z < tiny then total
+    else
+      let color := misColor c.intensity (densities abs fourPi c.joined totalLight maxDepth maxLightDepth)
+      match c.connect with
+      | some (p1, p2) =>
+        if p1 = p2 then total.add color
+        else if blocked p1 p2 then total else total.add color
+      | none => total.add color) V3.zero
+
+/-- The visibility test of a connection in `rayColor`: a ray from `p1` towards `p2` (offset by `eps`)
+hits something before `|p2 − p1| − 2·eps`. `sceneScale r` is the `Scale` of `obj.Cast(r)` (`none`: miss). -/
+def connectionBlocked [OfNat α 2] (sqrt : α → α) (eps : α) (sceneScale : Ray α → Option α) (p1 p2 : V3 α) : Bool :=
+  let dir := (p2.sub p1).normalize sqrt
+  let ray : Ray α := ⟨p1.add ((dir.normalize sqrt).scale eps), dir⟩
+  let d := p2.sub p1
+  let maxDist := sqrt (d.x * d.x + d.y * d.y + d.z * d.z) - 2 * eps
+  match sceneScale ray with
+  | some s => decide (s < maxDist)
+  | none => false
+
+end BPT
 
 end M3d.Render
